@@ -271,6 +271,7 @@ def run(ctx):
             raise tlc.TlcError('non-vacuity: %s does not break %s' % (dev, inv))
         ctx.coverage.setdefault('nonvacuity', []).append('%s breaks %s' % (dev, inv))
     T['m1'] = time.time() - t0; t0 = time.time()
+    sys.stderr.write('C12 phase %s: %.0fs\n' % ('m1', T['m1'])); sys.stderr.flush()
     solo, cache_attrs = solo_document()
     if not cache_attrs:
         ctx.notes.append('no transport attribute caches the WSDL bytes any more: shared-access imposition skipped')
@@ -279,6 +280,7 @@ def run(ctx):
         a, b = impose_all(ctx, 2, solo, cache_attrs, True, 5000, rnd); nb += a; nd += b
         a, b = impose_all(ctx, 3, solo, cache_attrs, True, 300 if ctx.quick else 4000, rnd); nb += a; nd += b
     T['impose'] = time.time() - t0; t0 = time.time()
+    sys.stderr.write('C12 phase %s: %.0fs\n' % ('impose', T['impose'])); sys.stderr.flush()
     # ---- code -> spec
     nruns = 0
     acc = tot = 0
@@ -291,6 +293,7 @@ def run(ctx):
     if acc != tot:
         ctx.notes.append('%d of %d real access traces are not behaviours of SpyneWsdlCache (model drift, not a verdict)' % (tot - acc, tot))
     T['explore_access'] = time.time() - t0; t0 = time.time()
+    sys.stderr.write('C12 phase %s: %.0fs\n' % ('explore_access', T['explore_access'])); sys.stderr.flush()
     nline = 0
     for threads, bound, limit in ([(2, 1, 250)] if ctx.quick else [(2, 2, 6000), (3, 1, 3000)]):
         n, _ = explore_real(ctx, threads, solo, cache_attrs or ('_wsdl',), bound, limit, True)
@@ -298,9 +301,11 @@ def run(ctx):
     ctx.cov_add(traces_validated_against_impl=acc, access_traces=tot, imposed_behaviours=nb, imposed_diverged=nd,
                 explored_schedules_access=nruns, explored_schedules_line=nline)
     T['explore_line'] = time.time() - t0; t0 = time.time()
+    sys.stderr.write('C12 phase %s: %.0fs\n' % ('explore_line', T['explore_line'])); sys.stderr.flush()
     from . import c12_shared
     c12_shared.run(ctx, rnd)
     T['shared'] = time.time() - t0
+    sys.stderr.write('C12 phase %s: %.0fs\n' % ('shared', T['shared'])); sys.stderr.flush()
     ctx.coverage['timing_s'] = {k: round(v, 1) for k, v in T.items()}
     ev = ctx.coverage
     ev['evaluations'] = nb + nruns + nline + ev.get('shared_runs', 0)
